@@ -193,6 +193,8 @@ def _touched_state(r, same_as=None, p_unset=0.32):
         return same_as
     if u < 0.57:
         return ''                      # set, but empty: a falsy "set" state
+    if u < 0.62 and same_as is not None and same_as.upper() != same_as:
+        return same_as.upper()         # equal to the parameter-file value up to case
     return 'orig_' + _name(r, 4)
 
 
